@@ -28,20 +28,27 @@ class Gen:
         self.sigs = {}              # function name -> (param list [(x, t)], ret)
         self.fresh = 0
         self.stats = set()
+        self.defined = []           # names of the type definitions of this program
+        self.defmode = {}           # their modes ("rep" when the program is unmoded)
+        self.moded = False
 
     # ------------------------------------------------------------------ helpers
     def ch(self, p=None):
-        return self.r.random() < (self.chaos if p is None else p)
+        """a deviation: with probability `chaos` where no p is given, else p scaled by the chaos level"""
+        return self.r.random() < (self.chaos if p is None else p * min(2.0, self.chaos / 0.15))
 
     def mode(self):
         if self.ch(0.12):
             return self.r.choice(ODD_MODES)
         return self.r.choice(MODES)
 
-    def tname(self):
+    def tname(self, cur=None):
         if self.ch(0.1):
-            return self.r.choice(["Z", "undefined", "self'", "lin"])
-        return self.r.choice(TNAMES)
+            return self.r.choice(["Z", "undefined", "self'", "lin"] + TNAMES)
+        same = [x for x in self.defined if self.defmode.get(x) == cur or cur is None]
+        if self.ch(0.1):
+            same = self.defined
+        return self.r.choice(same) if same else None
 
     def label(self):
         return self.r.choice(LABELS)
@@ -59,33 +66,40 @@ class Gen:
         return "v%d" % self.fresh
 
     # ------------------------------------------------------------------ types
-    def ty(self, depth, cur=None):
+    def ty(self, depth, cur="rep"):
+        """a type whose outer mode is meant to be `cur` (shifts change it for their operand)"""
         r = self.r
         k = r.random()
-        if depth <= 0 or k < 0.22:
-            return ("1",) if r.random() < 0.6 else ("n", self.tname())
-        if k < 0.34:
-            return ("n", self.tname())
-        if k < 0.46:
-            return ("*", self.ty(depth - 1), self.ty(depth - 1))
-        if k < 0.58:
-            return ("-*", self.ty(depth - 1), self.ty(depth - 1))
-        if k < 0.78:
+        if depth <= 0 or k < 0.3:
+            x = self.tname(cur)
+            return ("1",) if x is None or r.random() < 0.5 else ("n", x)
+        if k < 0.42:
+            return ("*", self.ty(depth - 1, cur), self.ty(depth - 1, cur))
+        if k < 0.54:
+            return ("-*", self.ty(depth - 1, cur), self.ty(depth - 1, cur))
+        if k < 0.8 or not self.moded:
             n = r.choice([1, 1, 2, 2, 3])
             labs = [self.label() for _ in range(n)] if self.ch(0.2) else r.sample(LABELS, n)
-            return (r.choice("+&"), [(l, self.ty(depth - 1)) for l in labs])
-        if k < 0.92:
-            f, t = self.mode(), self.mode()
-            if not self.ch(0.3):
-                # a shift that has a chance to be legal
-                order = {"rep": 0, "mul": 1, "aff": 1, "lin": 2}
-                f, t = r.choice(MODES), r.choice(MODES)
-                up = r.random() < 0.5
-                if up and order[f] < order[t] or not up and order[f] > order[t]:
-                    f, t = t, f
-                return ("up" if up else "dn", f, t, self.ty(depth - 1))
-            return (r.choice(["up", "dn"]), f, t, self.ty(depth - 1))
-        return ("m", self.mode(), self.ty(depth - 1))
+            return (r.choice("+&"), [(l, self.ty(depth - 1, cur)) for l in labs])
+        if self.ch(0.25):
+            return (r.choice(["up", "dn"]), self.mode(), self.mode(), self.ty(depth - 1, cur))
+        up = r.random() < 0.5
+        weaker = {"rep": ["rep", "mul", "aff", "lin"], "mul": ["mul", "lin"], "aff": ["aff", "lin"], "lin": ["lin"]}
+        stronger = {"rep": ["rep"], "mul": ["rep", "mul"], "aff": ["rep", "aff"], "lin": ["rep", "mul", "aff", "lin"]}
+        f = r.choice(weaker[cur] if up else stronger[cur]) if cur in weaker else self.mode()
+        return ("up" if up else "dn", f, cur, self.ty(depth - 1, f))
+
+    def tmode(self, t):
+        """the mode a type expression is meant to have (for printing a head annotation)"""
+        if t[0] == "n":
+            return self.defmode.get(t[1], "rep")
+        if t[0] in ("up", "dn"):
+            return t[2]
+        if t[0] in ("*", "-*"):
+            return self.tmode(t[1])
+        if t[0] in ("+", "&") and t[1]:
+            return self.tmode(t[1][0][1])
+        return None
 
     def show(self, t, left=False):
         k = t[0]
@@ -107,12 +121,17 @@ class Gen:
             return inner
         return "1"
 
-    def show_top(self, t):
-        if t[0] == "m":
-            return "%s %s" % (t[1], self.show(t[2]))
-        if self.ch(0.2):
+    def show_top(self, t, cur=None):
+        if not self.moded:
+            return self.show(t) if not self.ch(0.05) else "%s %s" % (self.mode(), self.show(t))
+        if self.ch(0.1):
             return "%s %s" % (self.mode(), self.show(t))
-        return self.show(t)
+        m = cur or self.tmode(t)
+        if m is None:
+            m = self.r.choice(MODES)
+        if t[0] == "n" or (m == "rep" and self.r.random() < 0.5):
+            return self.show(t)
+        return "%s %s" % (m, self.show(t))
 
     def unfold(self, t, n=6):
         while t is not None and n > 0:
@@ -128,7 +147,7 @@ class Gen:
     # ------------------------------------------------------------------ names
     def deco(self, n):
         if self.ch(0.12):
-            return self.r.choice("+-") + n
+            return self.r.choice(["+", " -"]) + n     # "<-x" would be scanned as the arrow
         return n
 
     def prov(self, selfnames):
@@ -142,6 +161,55 @@ class Gen:
         return self.deco(self.r.choice(VARS + ["self"]))
 
     # ------------------------------------------------------------------ expressions
+    def build(self, ctx, t, depth):
+        """cuts that create a fresh name of type t (positive types only: the body of a cut is an
+        axiom form); returns (prefix, name) or None"""
+        u = self.unfold(t)
+        if u is None or depth <= 0:
+            return None
+        self.fresh += 1
+        y = "n%d" % self.fresh
+        ann = "%s : %s" % (y, self.show_top(t))
+        if u[0] == "1":
+            return "%s <- new close self; " % ann, y
+        if u[0] == "+":
+            l, a = self.r.choice(u[1])
+            inner = self.build(ctx, a, depth - 1)
+            if inner:
+                return "%s%s <- new self.%s<%s>; " % (inner[0], ann, l, inner[1]), y
+        if u[0] == "*":
+            a, b = self.build(ctx, u[1], depth - 1), self.build(ctx, u[2], depth - 1)
+            if a and b:
+                return "%s%s%s <- new send self<%s, %s>; " % (a[0], b[0], ann, a[1], b[1]), y
+        if u[0] == "dn":
+            a = self.build(ctx, u[3], depth - 1)
+            if a:
+                return "%s%s <- new cast self<%s>; " % (a[0], ann, a[1]), y
+        fs = [f for f in sorted(self.sigs) if self.sigs[f][1] == t and not self.sigs[f][0]]
+        if fs:
+            return "%s <- new %s(); " % (y, self.r.choice(fs)), y
+        return None
+
+    def get(self, ctx, t, depth, used):
+        """a client name of type t: one in scope (not yet in `used`), or built by cuts"""
+        for x in sorted(ctx):
+            if ctx[x] == t and x not in used and not self.ch(0.1):
+                used.append(x)
+                return "", self.deco(x)
+        if not self.ch(0.15):
+            b = self.build(ctx, t, min(depth, 3))
+            if b:
+                return b[0], self.deco(b[1])
+        return "", self.client(ctx)
+
+    def finish(self, ctx, used, tail, pty, selfnames):
+        """get rid of the names of ctx that `tail` (an axiom form) does not use"""
+        pre = ""
+        for x in sorted(ctx):
+            if x not in used and not self.ch(0.15):
+                pre += ("wait %s; " if self.unfold(ctx[x]) == ("1",) else "drop %s; ") % x
+        return pre + tail
+
     def expr(self, ctx, pty, selfnames, depth):
         """ctx: name -> type (or None); pty: provider type or None"""
         r = self.r
@@ -175,13 +243,13 @@ class Gen:
         if c[0] == "fwd":
             return "fwd %s %s" % (self.prov(selfnames), self.client(ctx))
         x = self.client(ctx)
-        rest = {k: v for k, v in ctx.items() if k != x.lstrip("+-")}
+        rest = {k: v for k, v in ctx.items() if k != x.lstrip("+- ")}
         if c[0] == "drop":
             return "drop %s; %s" % (x, self.expr(rest, pty, selfnames, depth - 1))
         y, z = self.newvar(ctx), self.newvar(dict(ctx, q=None))
         if y == z and not self.ch(0.3):
             z = z + "'"
-        t = ctx.get(x.lstrip("+-"))
+        t = ctx.get(x.lstrip("+- "))
         return "<%s, %s> <- split %s; %s" % (y, z, x, self.expr(dict(rest, **{y: t, z: t}), pty, selfnames, depth - 1))
 
     def leaf(self, ctx, pty, selfnames):
@@ -204,14 +272,17 @@ class Gen:
         k = up[0]
         s = self.prov(selfnames)
         if k == "1":
-            if ctx and not self.ch(0.3):
+            if ctx and not self.ch(0.1):
                 x = self.client(ctx)
-                rest = {a: b for a, b in ctx.items() if a != x.lstrip("+-")}
-                verb = "wait" if self.unfold(ctx.get(x.lstrip("+-"))) == ("1",) or self.ch(0.3) else "drop"
+                rest = {a: b for a, b in ctx.items() if a != x.lstrip("+- ")}
+                verb = "wait" if self.unfold(ctx.get(x.lstrip("+- "))) == ("1",) or self.ch(0.3) else "drop"
                 return "%s %s; %s" % (verb, x, self.expr(rest, pty, selfnames, depth - 1))
             return "close %s" % s
         if k == "*":
-            return "send %s<%s, %s>" % (s, self.client(ctx), self.client(ctx))
+            used = []
+            p1, a = self.get(ctx, up[1], depth, used)
+            p2, b = self.get(ctx, up[2], depth, used)
+            return p1 + p2 + self.finish(ctx, used, "send %s<%s, %s>" % (s, a, b), pty, selfnames)
         if k == "-*":
             x, y = self.newvar(ctx), self.newvar(dict(ctx, q=None))
             if x == y and not self.ch(0.3):
@@ -221,7 +292,9 @@ class Gen:
             l, t = self.r.choice(up[1])
             if self.ch(0.15):
                 l = self.label()
-            return "%s.%s<%s>" % (s, l, self.client(ctx))
+            used = []
+            p1, a = self.get(ctx, t, depth, used)
+            return p1 + self.finish(ctx, used, "%s.%s<%s>" % (s, l, a), pty, selfnames)
         if k == "&":
             brs = []
             opts = list(up[1])
@@ -239,7 +312,9 @@ class Gen:
             y = self.newvar(ctx)
             return "%s <- shift %s; %s" % (y, s, self.expr(dict(ctx), up[3], ["self", y], depth - 1))
         if k == "dn":
-            return "cast %s<%s>" % (s, self.client(ctx))
+            used = []
+            p1, a = self.get(ctx, up[3], depth, used)
+            return p1 + self.finish(ctx, used, "cast %s<%s>" % (s, a), pty, selfnames)
         return "close %s" % s
 
     def left(self, ctx, pty, x, ux, selfnames, depth):
@@ -255,7 +330,9 @@ class Gen:
                 z = z + "'"
             return "<%s, %s> <- recv %s; %s" % (y, z, xs, self.expr(dict(rest, **{y: ux[1], z: ux[2]}), pty, selfnames, depth - 1))
         if k == "-*":
-            return "send %s<%s, %s>" % (xs, self.client(rest), s)
+            used = []
+            p1, a = self.get(rest, ux[1], depth, used)
+            return p1 + self.finish(rest, used, "send %s<%s, %s>" % (xs, a, s), pty, selfnames)
         if k == "+":
             brs = []
             opts = list(ux[1])
@@ -271,9 +348,9 @@ class Gen:
             l, t = self.r.choice(ux[1])
             if self.ch(0.15):
                 l = self.label()
-            return "%s.%s<%s>" % (xs, l, s)
+            return self.finish(rest, [], "%s.%s<%s>" % (xs, l, s), pty, selfnames)
         if k == "up":
-            return "cast %s<%s>" % (xs, s)
+            return self.finish(rest, [], "cast %s<%s>" % (xs, s), pty, selfnames)
         if k == "dn":
             y = self.newvar(ctx)
             return "%s <- shift %s; %s" % (y, xs, self.expr(dict(rest, **{y: ux[3]}), pty, selfnames, depth - 1))
@@ -315,7 +392,7 @@ class Gen:
                 args = [r.choice([y, "self"])] + args
             body = "%s(%s)" % (fn, ", ".join(args))
             return "%s <- new %s; %s" % (y, body, self.expr(dict(right, **{y: ret}), pty, selfnames, depth - 1))
-        t = self.ty(2) if self.ch(0.4) or not self.env else ("n", r.choice(sorted(self.env)))
+        t = self.ty(2, r.choice(MODES) if self.moded else "rep") if self.ch(0.4) or not self.env else ("n", r.choice(sorted(self.env)))
         body = self.leaf(left, t, ["self", y]) if not self.ch(0.2) else self.expr(left, t, ["self", y], 1)
         ann = "%s : %s" % (y, self.show_top(t)) if not self.ch(0.15) else y
         if self.ch(0.3):
@@ -363,19 +440,22 @@ class Gen:
     def program(self):
         r = self.r
         stmts = []
-        style = r.random()
+        self.moded = r.random() < 0.5
         ntypes = r.choice([0, 1, 2, 3, 4])
         names = r.sample(TNAMES, min(ntypes, len(TNAMES)))
+        self.defined = list(names)
         for x in names:
-            if self.ch(0.15):
+            self.defmode[x] = r.choice(MODES) if self.moded and r.random() < 0.6 else "rep"
+        for x in names:
+            if self.ch(0.1):
                 body = ("n", r.choice(names + ["Z"]))        # alias / non-contractive
             else:
-                body = self.ty(r.choice([1, 2, 3]))
-            if style < 0.5:
-                body = self.strip_modes(body)
+                body = self.ty(r.choice([1, 2, 3]), self.defmode[x])
+                if body[0] == "n" and not self.ch(0.3):
+                    body = ("+", [(self.label(), body)])
             self.env[x] = body
         for x in names:
-            stmts.append("type %s = %s" % (x, self.show_top(self.env[x]) if style >= 0.5 else self.show(self.env[x])))
+            stmts.append("type %s = %s" % (x, self.show_top(self.env[x], self.defmode[x])))
         if self.ch(0.1) and names:
             x = r.choice(names)
             stmts.append("type %s = %s" % (x, self.show(self.ty(1))))    # duplicate definition
@@ -383,8 +463,7 @@ class Gen:
 
         def pick():
             if self.ch(0.3):
-                t = self.ty(2)
-                return self.strip_modes(t) if style < 0.5 else t
+                return self.ty(2, r.choice(MODES) if self.moded else "rep")
             return r.choice(pool)
 
         nf = r.choice([0, 1, 1, 2, 3])
@@ -400,9 +479,9 @@ class Gen:
             def pshow(p):
                 if self.ch(0.08):
                     return p[0]
-                return "%s : %s" % (p[0], self.show_top(p[1]) if style >= 0.5 else self.show(p[1]))
+                return "%s : %s" % (p[0], self.show_top(p[1]))
             ctx = dict(ps)
-            rs = self.show_top(ret) if style >= 0.5 else self.show(ret)
+            rs = self.show_top(ret)
             if r.random() < 0.25:
                 w = self.newvar(ctx)
                 head = "let %s[%s%s%s]" % (fn, w, " : " + rs if not self.ch(0.1) else "",
@@ -432,25 +511,15 @@ class Gen:
                 if r.random() < 0.6:
                     ctx[v] = assumed[v]
             hd = p if not self.ch(0.15) else p + ", " + r.choice(["p2", "q", p])
-            tys = (" : " + (self.show_top(ptys[p]) if style >= 0.5 else self.show(ptys[p]))) if not self.ch(0.08) else ""
+            tys = (" : " + self.show_top(ptys[p])) if not self.ch(0.08) else ""
             stmts.append("prc[%s]%s = %s" % (hd, tys, self.expr(ctx, ptys[p], ["self", p] if "," not in hd else ["self"], r.choice([1, 2, 3, 4]))))
         if self.ch(0.25):
-            stmts.append("exec %s()" % r.choice(sorted(self.sigs) or FUNS))
+            nullary = [f for f in sorted(self.sigs) if not self.sigs[f][0]]
+            if nullary or self.ch(0.2):
+                stmts.append("exec %s()" % r.choice(nullary or FUNS))
         if self.ch(0.3):
             r.shuffle(stmts)
         return "\n".join(stmts) + "\n"
-
-    def strip_modes(self, t):
-        k = t[0]
-        if k == "m":
-            return self.strip_modes(t[2])
-        if k in ("*", "-*"):
-            return (k, self.strip_modes(t[1]), self.strip_modes(t[2]))
-        if k in ("+", "&"):
-            return (k, [(l, self.strip_modes(a)) for l, a in t[1]])
-        if k in ("up", "dn"):
-            return (k, t[1], t[2], self.strip_modes(t[3]))
-        return t
 
 
 def stream(seed, n):
